@@ -10,7 +10,8 @@ Labels (tuples):
   ("param", i)                 the i-th parameter (1-based MIR local)
   ("field", name)              a read went through field `name`
   ("variant", name)            a read went through a downcast to variant `name`
-  ("call", callee, bb)         result (or &mut out-argument) of a call
+  ("call", callee, bb)         result of a call
+  ("effect", callee, bb)       written by a call through a &mut argument (out-parameter / receiver)
   ("const", kind, value)       a literal
   ("agg", adt, variant, bb)    an aggregate built here
   ("bin", op) ("un", op) ("cast", kind) ("discr",) ("other",)
@@ -99,9 +100,9 @@ class Origins:
                     ty = fn.local_ty(a)
                     if ty.startswith("&mut") or ty.startswith("*mut") or ("&mut" in ty):
                         for base in self.alias[a]:
-                            extra.append((base, ("call", b, t, None)))
+                            extra.append((base, ("calleff", b, t, None)))
                         # a &mut parameter itself: the callee may write through it
-                        extra.append((a, ("call", b, t, None)))
+                        extra.append((a, ("calleff", b, t, None)))
         for base, d in extra:
             if d not in self.defs[base]:
                 self.defs[base].append(d)
@@ -118,9 +119,9 @@ class Origins:
                         cur.add(("param", d[1]))
                     elif d[0] == "assign":
                         cur |= self._rvalue_labels(d[4], d[1])
-                    elif d[0] == "call":
+                    elif d[0] in ("call", "calleff"):
                         t = d[2]
-                        cur.add(("call", callee(t), d[1]))
+                        cur.add(("call" if d[0] == "call" else "effect", callee(t), d[1]))
                         if callee(t) in self.opaque:
                             continue
                         for op in t["args"]:
@@ -232,9 +233,9 @@ class Origins:
                 operand(o_)
             if "place" in rv:
                 place(rv["place"])
-        elif d[0] == "call":
+        elif d[0] in ("call", "calleff"):
             t_ = d[2]
-            own.add(("call", callee(t_), d[1]))
+            own.add(("call" if d[0] == "call" else "effect", callee(t_), d[1]))
             if callee(t_) not in self.opaque:
                 for a in t_["args"]:
                     operand(a)
@@ -438,6 +439,12 @@ def has(labels, kind, *rest):
 
 
 def calls_in(labels):
+    """callees whose result OR side effect (through a &mut argument) the value may derive from"""
+    return {l[1] for l in labels if l[0] in ("call", "effect")}
+
+
+def results_in(labels):
+    """callees whose RESULT the value may derive from (side effects through &mut arguments excluded)"""
     return {l[1] for l in labels if l[0] == "call"}
 
 
